@@ -254,7 +254,7 @@ def relayout_fields(a, kind, seed=0):
             base, shape = (t.subdtype if t.subdtype else (t, ()))
             if kind == 'longlong' and base.kind == 'i' and base.itemsize == 8:
                 base = np.dtype(np.longlong).newbyteorder(base.byteorder)
-            key = ((n.upper() + '_TITLE', n) if kind == 'titled' else n)
+            key = (('title %d: %s' % (names.index(n), n), n) if kind == 'titled' else n)     # (unique also for fields 't' and 'T')
             return (key, base, shape) if shape else (key, base)
         b = np.zeros(a.shape, dtype=[ft(n) for n in names])
         for n in names:
